@@ -1103,6 +1103,17 @@ impl Locomotive {
     ) -> anyhow::Result<()> {
         // maybe put logic for toggling `engine_on` here
 
+        // the published limit binds a locomotive on its own just as it binds it inside a consist
+        if self.assert_limits {
+            ensure!(
+                utils::almost_le_uom(&pwr_out_req, &self.state.pwr_out_max, None),
+                "{}\nlocomotive power required ({} MW)\nexceeds current max power ({} MW)",
+                format_dbg!(),
+                pwr_out_req.get::<si::megawatt>().format_eng(Some(5)),
+                self.state.pwr_out_max.get::<si::megawatt>().format_eng(Some(5)),
+            );
+        }
+
         self.state.pwr_out = pwr_out_req;
         match &mut self.loco_type {
             PowertrainType::ConventionalLoco(loco) => {
